@@ -230,13 +230,81 @@ def generate():
         cast = [n.lineno for n in ast.walk(f) if isinstance(n, ast.Assign) and ast.unparse(n.value) == "array.astype(dtype, copy=False, casting='unsafe')"]
         okd = okd and len(cast) == 1 and ifs[c_round].lineno < ifs[c_clip].lineno < cast[0] < ifs[c_nod].lineno
     out.append(f'Definition gen_convert_dtype_ok : bool := {"true" if okd else "false"}.   (* rint, saturate, cast, invalid := nodata *)')
+    # ---- utils.same_orientation_crs: which image is viewed through a WarpedVRT, as boolean functions of
+    #      (source north-up, reference north-up, same CRS, processing grid = source)
+    f = find_func(ut, None, 'same_orientation_crs')
+
+    def btr(n):
+        t = ast.unparse(n)
+        if t == 'same_crs':
+            return 'same'
+        if t == 'north_up(src_im)':
+            return 'snu'
+        if t == 'north_up(ref_im)':
+            return 'rnu'
+        if t == 'proc_crs == ProcCrs.src':
+            return 'psrc'
+        if t == 'proc_crs != ProcCrs.src':
+            return '(negb psrc)'
+        if isinstance(n, ast.UnaryOp) and isinstance(n.op, ast.Not):
+            return f'(negb {btr(n.operand)})'
+        if isinstance(n, ast.BoolOp):
+            op = ' && ' if isinstance(n.op, ast.And) else ' || '
+            return '(' + op.join(btr(v) for v in n.values) + ')'
+        raise TranslatorError(f'same_orientation_crs: unsupported condition {t}')
+    if ast.unparse(one_assign(f, 'same_crs')) != 'src_im.crs == ref_im.crs':
+        raise TranslatorError('same_orientation_crs: same_crs')
+    seen = {}
+    for n in f.body:
+        if isinstance(n, ast.If):
+            body = [ast.unparse(x) for x in n.body]
+            if len(body) != 1 or n.orelse:
+                raise TranslatorError('same_orientation_crs: unexpected if body')
+            m = {'src_im = WarpedVRT(src_im, crs=src_im.crs, resampling=resampling)': 'src_flip', 'ref_im = WarpedVRT(ref_im, crs=ref_im.crs, resampling=resampling)': 'ref_flip',
+                 'src_im = WarpedVRT(src_im, crs=ref_im.crs, resampling=resampling)': 'src_to_ref_crs', 'ref_im = WarpedVRT(ref_im, crs=src_im.crs, resampling=resampling)': 'ref_to_src_crs'}
+            if body[0] not in m or m[body[0]] in seen:
+                raise TranslatorError(f'same_orientation_crs: unrecognised action {body[0]}')
+            seen[m[body[0]]] = btr(n.test)
+    if sorted(seen) != ['ref_flip', 'ref_to_src_crs', 'src_flip', 'src_to_ref_crs']:
+        raise TranslatorError(f'same_orientation_crs: actions {sorted(seen)}')
+    for k2 in ('src_flip', 'ref_flip', 'src_to_ref_crs', 'ref_to_src_crs'):
+        out.append(f'Definition gen_vrt_{k2} (snu rnu same psrc : bool) : bool := {seen[k2]}.')
+    # the corrected image's profile starts from the (possibly warped) source's profile
+    f = find_func(fu, 'RasterFuse', '_merge_corr_profile')
+    okc = ast.unparse(one_assign(f, 'corr_profile')) == 'utils.combine_profiles(self.src_im.profile, out_profile)'
+    out.append(f'Definition gen_corr_profile_from_source_view : bool := {"true" if okc else "false"}.')
+    # ---- band matching constants: the 10 % tolerance and the standard RGB centre wavelengths, as exact binary64 literals
+    mp = ast.parse((REPO / 'homonim' / 'matched_pair.py').read_text())
+    cls = [n for n in mp.body if isinstance(n, ast.ClassDef) and n.name == 'MatchedPairReader'][0]
+    tol = [n.value for n in cls.body if isinstance(n, ast.Assign) and ast.unparse(n.targets[0]) == '_max_rel_wavelength_diff']
+    if len(tol) != 1 or not isinstance(tol[0], ast.Constant):
+        raise TranslatorError('MatchedPairReader._max_rel_wavelength_diff')
+    out.append(f'Definition gen_max_rel_wavelength_diff : float := {float(tol[0].value).hex()}%float.')
+    f = find_func(mp, 'MatchedPairReader', '_get_band_info')
+    rgb = one_assign(f, 'std_rgb_cws')
+    txt = ast.unparse(rgb)
+    if not txt.startswith('dict(zip([ColorInterp.red, ColorInterp.green, ColorInterp.blue], ['):
+        raise TranslatorError(f'std_rgb_cws: {txt}')
+    vals = [float(ast.literal_eval(e)) for e in rgb.args[0].args[1].elts]
+    if len(vals) != 3:
+        raise TranslatorError('std_rgb_cws: three values expected')
+    for nm, v in zip(('red', 'green', 'blue'), vals):
+        out.append(f'Definition gen_std_cw_{nm} : float := {v.hex()}%float.')
+    use = [n for n in ast.walk(f) if isinstance(n, ast.If) and ast.unparse(n.test) == 'len(non_alpha_bands) == 3']
+    out.append(f'Definition gen_rgb_defaults_only_for_three_bands : bool := {"true" if len(use) == 1 else "false"}.')
+    # the over-tolerance test: strictly greater than the tolerance, on the matched distances
+    fm = find_func(mp, 'MatchedPairReader', '_match_pair_bands')
+    over = [ast.unparse(n.test) for n in ast.walk(fm) if isinstance(n, ast.If) and '_max_rel_wavelength_diff' in ast.unparse(n.test)]
+    out.append('Definition gen_over_tolerance_is_strict_any : bool := %s.' % ('true' if over == ['any(match_dist > MatchedPairReader._max_rel_wavelength_diff)'] else 'false'))
+    rd = ast.unparse(one_assign([g for g in ast.walk(fm) if isinstance(g, ast.FunctionDef) and g.name == '_match_pair_bands'][0], 'rel_dist'))
+    out.append('Definition gen_rel_dist_by_source : bool := %s.' % ('true' if rd == 'abs_dist / src_wavelengths[:, np.newaxis]' else 'false'))
     return out
 
 
 HEADER = '''(* GENERATED by translate/blocks.py from /repo/homonim - do not edit.
    Integer arithmetic of block formation in the current source, one axis at a time:
    u = a block corner from the range, bs = block size, ov = overlap, lo / hi = processing window corners (off, off + n). *)
-From Coq Require Import ZArith Bool.
+From Coq Require Import ZArith Bool PrimFloat.
 Open Scope Z_scope.
 
 Definition translation_failed : bool := %s.
@@ -253,7 +321,7 @@ def main():
         ok = False
     out = Path(os.environ.get('BLOCKS_OUT', OUT))
     if not out.exists() or out.read_text() != text:
-        out.write_text(text)
+        (print('CHANGED', out.name) if os.environ.get('REGEN_DRY') else out.write_text(text))
     return ok
 
 
